@@ -242,7 +242,16 @@ func c10LendGen1Phase(e *c08Env, rec *ev.Rec, rounds int) {
 		}
 		res, _ := e.deliver(who, &liqtypes.MsgLiquidateBorrowRequest{From: who.Addr.String(), BorrowId: b.ID})
 		e.log(fmt.Sprintf("%s sends the generation-1 liquidate message for borrow %d (in=%s out=%s) -> ok=%v", who.Name, b.ID, b.AmountIn, b.AmountOut, res.OK()))
-		e.u.SetPrice(asset, old, true)
+		// in a third of the rounds the oracle does not recover before the auction is closed but moves a little further
+		// against the borrower: the position is then still unsafe after the sale and the close starts a second round
+		adverse := round%3 == 1
+		if adverse {
+			pnow, _ := e.u.Price(asset)
+			e.u.SetPrice(asset, pnow*uint64(88+e.rnd.Intn(9))/100+1, true)
+			e.log(fmt.Sprintf("price %s moves further against the borrower: %d", e.u.Assets[asset].Denom, pnow))
+		} else {
+			e.u.SetPrice(asset, old, true)
+		}
 		after := custody()
 		for _, a := range e.gen1LendAuctions() {
 			if known[a.AuctionId] {
@@ -334,11 +343,26 @@ func c10LendGen1Phase(e *c08Env, rec *ev.Rec, rounds int) {
 				if x.AuctionId == a.AuctionId {
 					still = true
 				}
+				if ledgers[x.AuctionId] == nil {
+					// opened by the closing bid itself: the position was still unsafe after the sale (second round)
+					lot := x.OutflowTokenInitAmount.Amount.BigInt()
+					sz := bigAdd(bigAdd(lot, floorMulDec(lot, par.LiquidationBonus)), big.NewInt(1))
+					d := x.OutflowTokenInitAmount.Denom
+					ledgers[x.AuctionId] = &led{target: x.InflowTokenTargetAmount.Amount.BigInt(), seized: sz, paid: new(big.Int), recv: new(big.Int), coll: d, debt: x.InflowTokenTargetAmount.Denom}
+					if seizedSince[d] == nil {
+						seizedSince[d] = new(big.Int)
+					}
+					seizedSince[d].Add(seizedSince[d], sz)
+					rec.Count("auctions_opened_gen1_lend_second_round", 1)
+				}
 			}
 			if !still {
 				rec.Count("auctions_closed_gen1_lend", 1)
 				settle(desc, l)
 			}
+		}
+		if adverse {
+			e.u.SetPrice(asset, old, true)
 		}
 		c.NextBlock(6 * time.Second)
 	}
